@@ -60,7 +60,7 @@ CHECKS = {
               "PDU within max_packet_len, scope (0, EOF size); gap detection / removal step lemmas; nothing missing => no NAK. "
               "History level (C06b): for EVERY arrival order and duplication of the tiles of a file (fixed segment length) the tracker "
               "denotes exactly the bytes below the highest offset received that were not received, stays well-formed and never raises. "
-              "Not proved: the same for arbitrarily overlapping segments (false: known finding F9) and across the EOF/deferred phase "
+              "Not proved: the same for arbitrarily overlapping segments (c06_tracker_never_forgets covers them: total, sound, possibly over-approximating) and across the EOF/deferred phase "
               "(evaluated by the oracle on every explored history).", "6/C06"),
     "C07": _c("Coq proof by induction over the tiles of the file (unbounded: all contents, sizes, configurations) + correspondence + stream oracle",
               "Proof (props/C07.v): for every file and configuration with effective segment length >= 1 the calls of an accepted put "
@@ -82,7 +82,7 @@ CHECKS = {
               "well-formedness invariants of both handlers hold for fresh handlers, are preserved by every API call (also a raising "
               "one) and by the environment, and under them no API call raises AssertionError / AttributeError / TypeError / KeyError "
               "or exceeds the modelled nesting depth - for every history. ValueError is outside by design (unroutable PDU, packet "
-              "too small, truncated source file, tracker on overlapping data = known finding F9); the oracle checks every exception "
+              "too small, truncated source file, unreachable tracker refusal: finding F9 is fixed); the oracle checks every exception "
               "class on hostile histories incl. the fault-handler matrix.", "6/C10"),
     "C11": _c("Coq proof of the idle-is-fresh invariants over both whole state machines + differential run fresh vs reused vs sibling handlers + correspondence",
               "Proof (props/C11.v): whenever a handler is idle its per-transaction parameter block is the freshly constructed one "
@@ -105,12 +105,12 @@ CHECKS = {
     "C14": _c("Coq proof (dispatch lemmas for every condition/handler code on both handlers; table read from mib.py each run) + correspondence + callback oracle",
               "Proof (props/C14.v): declare_fault calls exactly the configured callback once with (id, condition, progress) and ignores / "
               "cancels (condition into EOF/Finished) / abandons (idle, nothing sent); no callback without transaction id; conditions "
-              "outside the table are refused, table unchanged; default table facts. Known finding F22 (NAK limit with IGNORE re-declared). Fixed in this round: F15, F25-F27 (ABANDON handler at the receiver).",
+              "outside the table are refused, table unchanged; default table facts. Fixed findings: F15, F22, F25-F27 (see DESIGN.md 14).",
               "6/C14"),
     "C15": _c("Coq proof (gating invariant over both whole state machines by compositional reasoning + parameter lemmas) + correspondence + indication oracle",
               "Proof (props/C15.v): every event any call adds is gated by its switch (all inputs, all states); Metadata-Recv / "
               "File-Segment-Recv parameters equal the PDU's; Transaction-Finished equals the Finished PDU of that completion; the "
-              "sender copies the Finished PDU; originating id surfaced unless a proxy put response is present. Known finding F21.",
+              "sender copies the Finished PDU; originating id surfaced unless a proxy put response is present. Fixed finding F21 (the cancelled unacknowledged sender now reports; c15_source_cancel_unacked_reports).",
               "6/C15"),
     "C16": _c("Coq proof of representation independence of both handlers w.r.t. the filestore (partial: runtime half by the tie) + native/in-memory/decoy differential run with host-access audit",
               "PARTIAL: the theorem (props/C16.v) shows the model handlers observe the filestore only through its interface. That the "
